@@ -7,6 +7,21 @@ COMMON_TB = [
 ]
 
 PROPS = {
+    "C02": {
+        "lean_targets": ["BA.Props.C02"],
+        "harness": "c02",
+        "translators": ["extract_constants.py"],
+        "trusted_base": COMMON_TB + [
+            "the real fil_actor_miner::Partition is driven through its pub API on an in-memory blockstore (failing calls rolled back by the harness as the actor's transaction would); the real power actor runs in the harness VM with UpdateClaimedPower sent from miner id addresses",
+            "sector power (raw = sector size, QA from fil_actor_miner::qa_power_for_sector) is an input of the model per sector; the QA-power formula itself is not modelled",
+            "that lib.rs forwards every returned delta to the power actor (request_update_power after each transaction) is checked by the actor-level oracle, not proved",
+        ],
+        "assumptions": [
+            "minimum_consensus_power > 0 (true of every shipped policy; with a non-positive minimum delete_claim leaves the deleted miner counted, exhibited as a Lean example)",
+            "set arguments are bitfields (duplicate-free); infos handed to add_sectors are the Sectors-table infos of distinct sector numbers; one quantisation spec per partition",
+            "actor ids are never reused (Init actor)",
+        ],
+    },
     "C04": {
         "lean_targets": ["BA.Props.C04"],
         "harness": "c04",
